@@ -9,4 +9,5 @@ CONSTANTS
   SeqTags = {"seq"}
   Modes = {"A"}
   AllowSelf = FALSE
+  MergeShape = "any"
 INVARIANT Agree
